@@ -219,6 +219,20 @@ PROPS = {
              "checks": {"quick": 3000, "thorough": 120000}, "shards": {"quick": 4, "thorough": 6}},
         ],
     },
+    "C15": {
+        "level": "exploration", "sim": True,
+        "technique": "property-based testing (rapid): generated customize rule sets and related objects across namespaces/scopes; oracle = the related map actually sent to the in-memory webhook compared for exact equality with an independent reference selection, error on invalid rule mixes, customize-call counting per (UID, generation), and the select/trigger agreement checked by delivering an update of every selected object to the handlers",
+        "level_text": "selection and triggering are two separate code paths; both are judged against one reference predicate: what is in the related map must equal the reference selection, and every object in it must wake the parent",
+        "rule": ("rapid-generated cases: 1-3 rules over configmaps/widgets/cwidgets (matchLabels, empty selector, matchExpressions, namespace only, names only, namespace+names, invalid selector+names/namespace mix, foreign namespace, bare rule; several rules per resource) x "
+                 "related objects rel-a/rel-b/rel-x in ns1/ns2 and cluster scope with/without the label x namespaced/cluster parents x composite/decorator x 2-4 syncs with parent generation bumps; "
+                 "non-trivial = the rule set selected at least one and rejected at least one object, or was invalid; distinct = distinct choice sequences"),
+        "jobs": [
+            {"name": "c15-composite", "pkg": COMPOSITE, "tests": ["TestVerifC15Composite"],
+             "checks": {"quick": 3000, "thorough": 150000}, "shards": {"quick": 6, "thorough": 8}},
+            {"name": "c15-decorator", "pkg": DECORATOR, "tests": ["TestVerifC15Decorator"],
+             "checks": {"quick": 1500, "thorough": 60000}, "shards": {"quick": 3, "thorough": 4}},
+        ],
+    },
     "C16": {
         "level": "exploration", "sim": True,
         "technique": "property-based testing (rapid): generated targets, selectors and decorator hook answers; oracle = diff of the target before/after each sync against 'before + named label/annotation keys + status + own finalizer', plus request-log rules (no write when nothing changes, spec never touched, foreign attachments never written)",
